@@ -1,9 +1,9 @@
 from vf.gen import Plan
 from props.fam_l1 import l1_loader_module
-from props.fam_l2 import l2_module
+from props.fam_l2 import l2_module, l2_dump_module
 
 
 def build(tier, seed):
-    mods = [l1_loader_module("C02", tier), l2_module("C02", tier)]
+    mods = [l1_loader_module("C02", tier), l2_module("C02", tier), l2_dump_module("C02", tier)]
     return Plan("C02", mods, assumptions=["CrossHair models of builtins (floats as reals: numeric boundary regions are owned by the E2 kernels)"],
                 bounds={}, outside=["strings longer than the bound"])
